@@ -148,7 +148,7 @@ func cmGen(r *rand.Rand, tier string, n int, emit func(op string, tags ...string
 			case 4:
 				d, fam = gen.Runs(r, nby), "runs"
 			case 5:
-				d, fam = gen.Skewed(r, nby, 1+r.Intn(5), r.Intn(256)), "skewed"
+				d, fam = gen.Skewed(r, nby, 1+r.Intn(5), 1+r.Intn(255)), "skewed"
 			case 6:
 				d, fam = gen.SmallAlpha(r, nby, 2+r.Intn(3)), "small-alphabet"
 			case 7:
